@@ -19,6 +19,16 @@ pub struct Mls {
 const BASES: &[&str] = &["", "  ", "    ", "\t", "\t\t", " \t", "\u{3000}", "  \u{b}", "        "];
 const CONTENTS: &[&str] = &["text", "select *", "it's", "x", "  more indented", "\ttabbed", "a 'quoted' b", "ünï", "trailing  ", "trailing\t", "''", "end;", "// c", "{ c }"];
 
+/// append a line ending; a lone CR directly followed by LF would read as one CRLF, so an LF
+/// after a text that ends in CR (empty line after a CR ending) is written as CRLF
+fn push_ending(text: &mut String, ending: &str) {
+    if text.ends_with('\r') && ending == "\n" {
+        text.push_str("\r\n");
+    } else {
+        text.push_str(ending);
+    }
+}
+
 pub fn gen(rng: &mut Rng) -> Mls {
     let quotes = *rng.pick(&[3usize, 3, 3, 3, 5, 7]);
     let q = "'".repeat(quotes);
@@ -35,7 +45,7 @@ pub fn gen(rng: &mut Rng) -> Mls {
     let mut conforming = true;
     let mut shape = format!("q{quotes} base={:?} n={n}", base);
     for _ in 0..n {
-        text.push_str(rng.pick_str(endings));
+        push_ending(&mut text, rng.pick_str(endings));
         match rng.below(12) {
             0 => {
                 // blank line
@@ -85,7 +95,7 @@ pub fn gen(rng: &mut Rng) -> Mls {
             }
         }
     }
-    text.push_str(rng.pick_str(endings));
+    push_ending(&mut text, rng.pick_str(endings));
     text.push_str(&base);
     if rng.chance(1, 14) {
         // text before the closing quotes: not a valid closing line; must be left alone
